@@ -449,6 +449,25 @@ def run(ctx):
             for x in b.origins({"c": [l_]}):
                 if x[0] in ("param", "upvar") and len(x) > 2 and x[2]:
                     fields.add(x[2][-1] if not x[2][-1].startswith("@") and x[2][-1] not in (".0",) else next((e for e in reversed(x[2]) if e.startswith(".") and e != ".0"), ""))
+        # values that reach the list through an out-parameter (`collect(expr, &mut wanted)`): what the other arguments derive from
+        W_ = wide_all(b, o) | deep_locals(b, o.get("m") or o.get("c"), wide=True)
+        for c_ in b.calls:
+            if c_.cleanup or len(c_.args) < 2 or not c_.callee or not F.has(c_.callee):
+                continue
+            outp = [a_ for a_ in c_.args if b._origin_locals(a_) & W_]
+            if not outp:
+                continue
+            for a_ in c_.args:
+                if a_ in outp:
+                    continue
+                for l_ in wide_all(b, a_) | b._origin_locals(a_):
+                    for x in b.origins({"c": [l_]}):
+                        if x[0] in ("param", "upvar") and len(x) > 2 and x[2]:
+                            fields.add(next((e for e in reversed(x[2]) if e.startswith(".") and e != ".0"), ""))
+                        elif x[0] == "call" and "transform_where_clause_for_event_type" in x[1]:
+                            for y in b.origins(b.call_at(x[2]).args[0]):
+                                if y[0] in ("param", "upvar") and len(y) > 2 and y[2]:
+                                    fields.add(next((e for e in reversed(y[2]) if e.startswith(".") and e != ".0"), ""))
         inst.sites.append("sub-query return_fields derives from base fields %s" % sorted(f for f in fields if f))
         # the loop that adds the needed fields looks at each of them: it is left only by exhaustion (a `break` once one field is found
         # already listed skips the other one)
@@ -468,6 +487,8 @@ def run(ctx):
                 inst.sites.append("needed-fields loop @ %s" % sp(C, h.bb))
                 if body_ & after:
                     bad.append(("needed-fields-loop-left-early", "the loop of create_sub_query that adds the link / time field to a RETURN list can be left before it has looked at every needed field (break): RETURN [uid, ...] then hides the time column from the matcher", sp(C, h.bb)))
+        if ".where_clause" not in fields:
+            bad.append(("sub-query-return-hides:where-fields", "create_sub_query builds the sub-query's RETURN list without the fields this event type's part of the WHERE clause reads: the merger re-evaluates WHERE on rows that no longer carry them and the result is empty", sp(b, bb)))
         for need in (".link_field", ".sequence_time_field"):
             if need not in fields:
                 bad.append(("sub-query-return-hides:%s" % need[1:], "create_sub_query builds the sub-query's RETURN list without the base query's %s: with RETURN [...] the column the sequence merger needs is projected away and no pair is found" % need[1:], sp(b, bb)))
